@@ -175,6 +175,13 @@ def run_case(c):
                                   cluster_center_inds=ci, **kw)
             out["res"] = canon(res, X)
             out["proposals_log"] = list(rec.log)
+            if c.get("extras") and start["how"] != "cold":
+                out["prefix"] = []
+                for j in range(1, c["n_iters"] + 1):
+                    cj = dict(c, n_iters=j, extras=False)
+                    oj = run_case(cj)
+                    out["prefix"].append(oj.get("res"))
+                out["repeat_equal"] = (out["prefix"][-1] == out["res"])
         elif kind == "hybrid":
             rec = RecordingRandomState(c["seed"])
             init = None if c.get("init") is None else X[c["init"]]
@@ -198,6 +205,12 @@ def run_case(c):
             if c["cutoff"] is not None:
                 kw2["dist_cutoff"] = c["cutoff"]
             out["kc"] = canon(KC.kcenters(X, metric, init_centers=init, **kw2), X)
+            if c.get("extras"):
+                out["prefix"] = [out["kc"]]
+                for j in range(1, c["n_iters"] + 1):
+                    oj = run_case(dict(c, n_iters=j, extras=False))
+                    out["prefix"].append(oj.get("res"))
+                out["repeat_equal"] = (out["prefix"][-1] == out["res"])
         elif kind == "assign":
             cen = X[c["centers"]]
             a, d = util.assign_to_nearest_center(X, cen, util._get_distance_method(metric))
@@ -365,7 +378,7 @@ def gen_hybrid(rng, nmax=11):
 def model_term(c, out):
     """Coq term of type st: the model run on the implementation's distance matrix and history."""
     n = c["n"]
-    Dt = "(Dm M)"
+    Dt = "(Dext M %s)" % cn(n)
     kind = c["kind"]
 
     def kc(cc):
@@ -400,7 +413,8 @@ def model_term(c, out):
 def coq_check(c, out):
     if "res" not in out:
         return None
-    return "(let M := %s in st_eqb %s %s)" % (D_term(out), model_term(c, out).split(" in ", 1)[1][:-1], res_term(out["res"]))
+    return "(let M := %s in valid_matrix M %s && st_eqb %s %s)%%bool" % (
+        D_term(out), cn(c["n"]), model_term(c, out).split(" in ", 1)[1][:-1], res_term(out["res"]))
 
 
 def coq_show(c, out=None):
